@@ -6,7 +6,7 @@
     [Context]; the writer is [SmtSer.ser] (C05).  [rt e mb] is the expression the reader
     builds from the writer's output of [e]; [equiv] = well-typed, same type, same value
     under every well-formed assignment. *)
-From Patronus Require Import SmtParse SmtParseLemmas SmtParseProofs SmtRoundTrip.
+From Patronus Require Import SmtParse SmtParseLemmas SmtParseProofs SmtRoundTrip SmtLexProofs SmtValueProofs.
 Open Scope string_scope.
 Open Scope list_scope.
 Open Scope N_scope.
@@ -20,6 +20,33 @@ Theorem C14_parse_ser :
     parse_expr_toks top (toks_of_sx (ser e mb)) = POk (rt e mb) /\ equiv e (rt e mb).
 Proof. exact parse_ser_lemma. Qed.
 Print Assumptions C14_parse_ser.
+
+(** The same at the level of characters: the canonical text of the writer's tokens (every
+    token followed by one space) goes through the lexer and the machine. *)
+Theorem C14_parse_ser_text :
+  forall (top : symtab) (e : expr) (mb : bool),
+    wt e = true -> built e = true -> idx32 e = true -> table_for top e ->
+    parse_expr_str top (render (flatten (ser e mb))) = POk (rt e mb) /\ equiv e (rt e mb).
+Proof. exact parse_ser_text_lemma. Qed.
+Print Assumptions C14_parse_ser_text.
+
+(** lex_print: the lexer returns the printed tokens (plain tokens without delimiters, well-formed
+    |quoted| symbols, parentheses). *)
+Theorem C14_lex_print :
+  forall ts : list stok, forallb stok_lexable ts = true -> lex_impl (render ts) = map ltok_of ts.
+Proof. exact lex_print. Qed.
+Print Assumptions C14_lex_print.
+
+(** value_parse: for model values in the forms solvers print them ([#b..], [#x..], [true]/[false],
+    [store] chains over [((as const (Array I D)) v)] with Bool or bit-vector index and data,
+    single-binding [let]s with fresh plain names), whatever the reference evaluator says the text
+    denotes, the reader returns an expression that denotes it. *)
+Theorem C14_value_parse :
+  forall (m : mval) (v : sval),
+    mv_wf [] m -> seval (fun _ => None) (mv_sx m) = Some v ->
+    exists e, parse_expr_toks [] (toks_of_sx (mv_sx m)) = POk e /\ ir_matches e v.
+Proof. exact value_parse_lemma. Qed.
+Print Assumptions C14_value_parse.
 
 (** The machine on any token sequence that comes from an S-expression without [let]:
     what it computes is the bottom-up evaluation [sxi] (single tokens by
@@ -92,3 +119,8 @@ Example C14_example :
   parse_expr_toks top (toks_of_sx (ser e false)) = POk (rt e false) /\
   parse_expr_str top "(= (bvsdiv |a b| #b0000) (bvadd (ite c #b0001 #b0000) (select m c)))" = POk (rt e false).
 Proof. vm_compute. repeat split. Qed.
+
+Example C14_value_example :
+  mv_wf [] example_value /\
+  exists f, seval (fun _ => None) (mv_sx example_value) = Some (SVArr SoBool (SoBV 8) f) /\ f 0 = 171 /\ f 1 = 3.
+Proof. exact example_value_ok. Qed.
